@@ -194,14 +194,36 @@ def truthy (o : Option Bool) : Bool := o == some true
 
 /-! ### `ipca`: library calls as parameters -/
 
+/-- the code of a numpy dtype (`a.dtype`, `np.float64`); what matters of it is given by `Lib.inexact` / `Lib.eps` -/
+abbrev Dtype := Nat
+
 /-- `np.sqrt`, `np.linalg.qr(a)[0]`, `np.linalg.svd(a)`: results of library calls, constrained by contracts in the
-theorems (`Lemmas/C11Src.lean`) -/
+theorems; the dtypes numpy gives the arrays (the model is exact arithmetic and carries none), `np.issubdtype(·, np.inexact)`
+and `np.finfo(·).eps`.  `precision` is the machine epsilon the tail of `ipca` discards with: `ipca` computes it from the
+dtypes of its operands (`Src.operandPrec`) and runs its tail on `lib.withPrec` of that. -/
 structure Lib where
   sqrt : Rat → Rat
   qrQ : M → M
   svd : M → M × V × M
-  /-- machine epsilon of the least precise floating point operand of the call (the model carries no dtypes) -/
   precision : Rat
+  dtypeM : M → Dtype
+  dtypeV : V → Dtype
+  float64 : Dtype
+  inexact : Dtype → Bool
+  eps : Dtype → Rat
+
+def Lib.withPrec (lib : Lib) (p : Rat) : Lib := { lib with precision := p }
+
+/-- `a.dtype` -/
+class DTypeIn (α : Type) where
+  dtypeIn : Lib → α → Dtype
+export DTypeIn (dtypeIn)
+instance : DTypeIn M := ⟨Lib.dtypeM⟩
+instance : DTypeIn V := ⟨Lib.dtypeV⟩
+/-- `max(l)` of a non-empty python list -/
+def maxList (l : List Rat) : Rat := l.foldl max (l.headD 0)
+/-- `+` on python lists -/
+instance : Add (List Rat) := ⟨List.append⟩
 
 class Sqrt (α : Type) where
   sqrt : (Rat → Rat) → α → α
@@ -481,6 +503,12 @@ def ipcaTail (lib : Lib) (B Ua : M) (sa : V) (f eps n : Rat) (m : V) : M × V ×
   let W := dot (lib.svd R).2.2 (vstack Ua Bt)
   (sl W 0 (len l) 0 W.c, l, m)
 
+/-- one operand of `ipca` folded into the running precision: floating point operands only -/
+def precOf (lib : Lib) (dt : Dtype) (acc : Rat) : Rat := if lib.inexact dt then max acc (lib.eps dt) else acc
+/-- machine epsilon of the least precise floating point operand among `B, U_a, l_a`, at least that of float64 -/
+def operandPrec (lib : Lib) (B Ua : M) (la : V) : Rat :=
+  precOf lib (lib.dtypeV la) (precOf lib (lib.dtypeM Ua) (precOf lib (lib.dtypeM B) (lib.eps lib.float64)))
+
 /-- `ipca(B, U_a, l_a, n_a, m_a, f, eps, centre)` -/
 def ipca (lib : Lib) (B Ua : M) (la : V) (na : Rat) (ma : Option V) (f eps : Rat) (centre : Option Bool) :
     M × V × V :=
@@ -495,9 +523,9 @@ def ipca (lib : Lib) (B Ua : M) (la : V) (na : Rat) (ma : Option V) (f eps : Rat
       | none => zerosV B.c
       | some m => m
     let mb := mean0 B
-    ipcaTail lib (vstack (B - mb) ((sqrt lib.sqrt (na' * (B.r : Rat) / n) : Rat) * (mb - ma'))) Ua sa f eps n
+    ipcaTail (lib.withPrec (operandPrec lib B Ua la)) (vstack (B - mb) ((sqrt lib.sqrt (na' * (B.r : Rat) / n) : Rat) * (mb - ma'))) Ua sa f eps n
       ((na' / n) * ma' + (((B.r : Rat)) / n) * mb)
-  else ipcaTail lib B Ua sa f eps n (zerosV B.c)
+  else ipcaTail (lib.withPrec (operandPrec lib B Ua la)) B Ua sa f eps n (zerosV B.c)
 
 /-- `PCAVectorModel.increment` (the setter of `n_active_components` is taken at an integer in range: it stores it) -/
 def pcaIncrement (lib : Lib) (eps : Rat) (st : PcaState) (data : Samples) (nsamples : Option Nat) (ff : Rat) : PcaState :=
